@@ -11,8 +11,8 @@ void trap(Trap t) { fprintf(stderr, "trap %d\n", (int)t); abort(); }
 static tsInstance root;
 wasmMemory* wasiMemory(void* i) { return ts_memory((tsInstance*)i); }
 static pthread_mutex_t lg = PTHREAD_MUTEX_INITIALIZER;
-static struct { U32 tid, arg; int shared, parent; } starts[256]; static int nstarts;
-static struct { U32 arg, ret; } spawns[256];
+static struct { U32 tid, arg; int shared, parent; } starts[4096]; static int nstarts;
+static struct { U32 arg, ret; } spawns[4096];
 void env__report(void* inst, U32 tid, U32 arg) {
     pthread_mutex_lock(&lg);
     starts[nstarts].tid = tid; starts[nstarts].arg = arg;
@@ -22,20 +22,30 @@ void env__report(void* inst, U32 tid, U32 arg) {
     pthread_mutex_unlock(&lg);
 }
 static pthread_barrier_t bar;
-static void* spawner(void* a) { long k = (long)a; pthread_barrier_wait(&bar); spawns[k].arg = (U32)(1000 + k); spawns[k].ret = ts_spawn(&root, spawns[k].arg); return NULL; }
+/* every spawning thread issues M spawns; before each one all of them meet at a spinning rendezvous, so that the calls overlap */
+static int M = 1, Kthreads; static volatile long arrived;
+static void* spawner(void* a) { long k = (long)a; int m;
+    pthread_barrier_wait(&bar);
+    for (m = 0; m < M; m++) {
+        long want = (long)(m + 1) * Kthreads;
+        __atomic_add_fetch(&arrived, 1, __ATOMIC_SEQ_CST); while (__atomic_load_n(&arrived, __ATOMIC_SEQ_CST) < want) {}
+        spawns[k * M + m].arg = (U32)(1000 + k * M + m); spawns[k * M + m].ret = ts_spawn(&root, spawns[k * M + m].arg);
+    }
+    return NULL; }
 int main(int argc, char** argv) {
-    int K = argc > 1 ? atoi(argv[1]) : 4, i, waited = 0; pthread_t th[64];
+    int K = argc > 1 ? atoi(argv[1]) : 4, i, waited = 0, total; pthread_t th[64];
     char* noargs[1] = {NULL};
+    M = argc > 2 ? atoi(argv[2]) : 1; Kthreads = K; total = K * M;
     wasiInit(0, noargs, noargs);
     tsInstantiate(&root, NULL);
     pthread_barrier_init(&bar, NULL, (unsigned)K);
     for (i = 0; i < K; i++) pthread_create(&th[i], NULL, spawner, (void*)(long)i);
     for (i = 0; i < K; i++) pthread_join(th[i], NULL);
-    while (waited < 3000) { int n; pthread_mutex_lock(&lg); n = nstarts; pthread_mutex_unlock(&lg); if (n >= K && ts_cell(&root) >= (U32)K) break; usleep(1000); waited++; }
+    while (waited < 3000) { int n; pthread_mutex_lock(&lg); n = nstarts; pthread_mutex_unlock(&lg); if (n >= total && ts_cell(&root) >= (U32)total) break; usleep(1000); waited++; }
     usleep(20000);      /* a duplicate start, if any, gets a chance to show up */
     pthread_mutex_lock(&lg);
     printf("{\"spawns\":[");
-    for (i = 0; i < K; i++) printf("%s{\"arg\":%u,\"ret\":%d}", i ? "," : "", spawns[i].arg, (int)spawns[i].ret);
+    for (i = 0; i < total; i++) printf("%s{\"arg\":%u,\"ret\":%d}", i ? "," : "", spawns[i].arg, (int)spawns[i].ret);
     printf("],\"starts\":[");
     for (i = 0; i < nstarts; i++) printf("%s{\"tid\":%u,\"arg\":%u,\"shared\":%d,\"parent\":%d}", i ? "," : "", starts[i].tid, starts[i].arg, starts[i].shared, starts[i].parent);
     printf("],\"cell\":%u}\n", ts_cell(&root));
